@@ -588,7 +588,9 @@ func init() {
 		for i, p := range pkts {
 			snap[i] = *p
 		}
-		lists := [][]int{{0x65, 0x66}}
+		// ... lists that name only the PIDs the filter tolerates without looking them up (PAT PID, the table's own PID)
+		own := packet.Pid(pkts[0])
+		lists := [][]int{{0x65, 0x66}, {0, own}, {own}}
 		if pmt, err := psi.NewPMT(in); err == nil && pmt != nil {
 			if ps := pmt.Pids(); len(ps) > 0 {
 				// ... and a present PID next to values no PID can have (psi.PidNotFound is one of them)
